@@ -125,7 +125,7 @@ static void init_catalogue() {
           1e-300, -1e-300, 179.99999999999, -179.99999999999, U(360, -1), U(-360, 1), U(540, -1), U(540, 1), 1e15, -1e15, 1e18, 9007199254740992.0,
           1e300, -1e300, DMAX, -DMAX, 12345.678, f8, U(f8, -1), U(f8, 1), 0.1, 15, -15, U(15, -1), U(-15, -1), 30, 1 / 60.0, U(1 / 60.0, -1), 7.5, -76.411666666666662,
           179.5, U(179.5, -1), -179.5, 165, U(165, -1), 1 / 12.0, U(1 / 12.0, -1), U(1 / 12.0, 1), 1e-9 / 60, U(1e-9 / 60, -1), 3 * 360.0 + 180, -5 * 360.0 - 180};
-  // (negative subnormals and |x| > 2^31 km are probed in the small section osgb_extreme: they abort sanitizer builds)
+  // (negative subnormals and |x| > 2^31 km are probed in the small section osgb_extreme: they aborted sanitizer builds of the pre-fix tree)
   XS = {-1e6, U(-1e6, 1), U(-1e6, -1), 1.5e6, U(1.5e6, -1), 0.0, -0.0, DMIN, 2 * DMIN, 1e-320, 1e-300, -1e-300, 1e-10, -1e-10, 1e-6, -1e-6,
         U(1e-6, -1), U(-1e-6, -1), -1e-3, 1e5, U(1e5, -1), U(1e5, 1), -1e5, U(-1e5, -1), U(-1e5, 1), 5e5, U(5e5, -1), -5e5, U(-5e5, -1), 651409.903, 216600, 438700.5,
         0.1, U(0.1, -1), 0.3, -0.3, 99999.999999, 123456.789, -123456.789, 1e6, U(1e6, -1), 1.4e6, 2e6, -2e6, 1e12, -1e12, 0.5, -0.5, 1, U(1, -1), -1, U(-1, -1),
@@ -152,8 +152,8 @@ static void sec_fwd_directed(Ctx& c, uint64_t idx) {
   }
 }
 
-// OSGB probes that abort sanitizer builds of the unchanged tree (kept few): negative subnormal coordinates
-// (= "edge 0 minus one ulp") and out-of-range coordinates beyond 2^31 km.
+// OSGB probes that aborted sanitizer builds of the tree before the fixes b177940/b5e466d: negative subnormal
+// coordinates (= "edge 0 minus one ulp") and out-of-range coordinates beyond 2^31 km.
 static void sec_osgb_extreme(Ctx& c, uint64_t idx) {
   static const double P[][2] = {{-DMIN, 0}, {0, -DMIN}, {-DMIN, -DMIN}, {-1e-320, 123456.5}, {654321.5, -2e-320}, {-2.4e-319, 7.5},
                                 {1e300, 0}, {0, -1e300}, {INF, 0}, {0, -INF}, {3e12, 5}, {5, -3e12}};
@@ -193,7 +193,6 @@ static void sec_fwd_edges(Ctx& c, uint64_t idx) {
       const char* lab = d < 0 ? "edge-ulp" : d == 0 ? "edge" : "edge+ulp";
       if (wrapped) c.event("edge cases with longitude shifted by a multiple of 360");
       double uu = vh::ulps(ue, du), vv = vh::ulps(ve, dv);
-      if (s == rc::OSGB && ((uu < 0 && uu > -1e-318) || (vv < 0 && vv > -1e-318))) { c.event("osgb negative subnormal edge offsets skipped here (probed in osgb_extreme)"); continue; }
       check_point(c, s, uu, vv, p, lab);
     }
 }
